@@ -94,6 +94,7 @@ pub struct XTokOut {
 }
 
 pub fn run_xml_tokens(cfg: &XmlCfg, sched: &[Feed], end: bool, want_dump: bool) -> XTokOut {
+    let _watch = crate::common::watch(|w| w.push_str(&crate::c15::witness(cfg, sched)));
     let sink = XRec { toks: RefCell::new(vec![]), errors: RefCell::new(vec![]), eofs: Cell::new(0), script_pause: cfg.script_pause };
     let tok = XmlTokenizer::new(
         sink,
@@ -156,6 +157,7 @@ pub struct XTreeOut {
 }
 
 pub fn run_xml_tree(cfg: &XmlCfg, sched: &[Feed], end: bool) -> XTreeOut {
+    let _watch = crate::common::watch(|w| w.push_str(&crate::c15::witness(cfg, sched)));
     let mut sink = MSink::new(cfg.with_rcdom, false);
     sink.xml = true;
     let p = parse_document(
